@@ -301,8 +301,9 @@ func Harness_app_bad_input() {
 	// 0 none; 1 bad syntax in the log; 2 bad number in the log; 3 bad syntax in the book; 4 bad number in the book;
 	// 5 log unreadable (a directory); 6 book unreadable (a directory);
 	// 7 malformed line in a day after the end of the period in force (--end given globally)
-	fault := verifChoose("fault", 8)
-	verifLabel("fault", []string{"none", "log-bad-syntax", "log-bad-number", "book-bad-syntax", "book-bad-number", "log-is-directory", "book-is-directory", "log-bad-number-after-period"}[fault])
+	// 8 two malformed lines in the log; 9 two in the book: the FIRST is the one reported
+	fault := verifChoose("fault", 10)
+	verifLabel("fault", []string{"none", "log-bad-syntax", "log-bad-number", "book-bad-syntax", "book-bad-number", "log-is-directory", "book-is-directory", "log-bad-number-after-period", "log-two-malformed-lines", "book-two-malformed-lines"}[fault])
 	logText, dbText := hAppLog, hAppDB
 	badLine, badNo := "", ""
 	switch fault {
@@ -314,6 +315,10 @@ func Harness_app_bad_input() {
 		dbText, badLine, badNo = "f0:\n  x: 2\n# c\n  y:1\nf1:\n  f0: 2\n", "  y:1", "4"
 	case 4:
 		dbText, badLine, badNo = "\nf0:\n  x: two\n  y: 1\n", "  x: two", "3"
+	case 8:
+		logText, badLine, badNo = "2021/01/01:\n  f1: 2\n  calories250\n  x: 1\n2021/01/02:\n  f0: 1\n  fat: abc\n", "  calories250", "3"
+	case 9:
+		dbText, badLine, badNo = "f0:\n  x: 2\n  calories250\nf1:\n  f0: 2\n  fat: abc\n", "  calories250", "3"
 	case 7:
 		logText, badLine, badNo = "2021/01/01:\n  f1: 2\n2021/01/05:\n  f0: 1\n2021/01/06:\n  f0: 1\n  x: 1,5\n2021/01/01:\n  x: 1\n", "  x: 1,5", "7"
 	}
@@ -330,7 +335,7 @@ func Harness_app_bad_input() {
 	default:
 		dbName = verifFile("db$HOME", dbText)
 	}
-	relevant := fault == 0 || (cmd.log && (fault == 1 || fault == 2 || fault == 5 || fault == 7)) || (cmd.db && (fault == 3 || fault == 4 || fault == 6))
+	relevant := fault == 0 || (cmd.log && (fault == 1 || fault == 2 || fault == 5 || fault == 7 || fault == 8)) || (cmd.db && (fault == 3 || fault == 4 || fault == 6 || fault == 9))
 	if !relevant {
 		return
 	}
@@ -343,7 +348,7 @@ func Harness_app_bad_input() {
 	switch {
 	case fault == 0:
 		verifAssert("well-formed-input-succeeds", err == nil && len(verifLines(out)) > 0)
-	case fault <= 4 || fault == 7:
+	case fault <= 4 || fault >= 7:
 		verifAssert("malformed-input-is-error", err != nil)
 		if err != nil {
 			msg := err.Error()
